@@ -79,6 +79,7 @@ func c05(r *engine.Report, p *engine.Program) {
 			}
 		}
 		// filePos >= unitStatus.StdoutSize
+		var sizeBases []ssa.Value
 		posGE, _ := engine.CondEdges(G, func(c ssa.Value) (bool, bool) {
 			bo, ok := c.(*ssa.BinOp)
 			if !ok {
@@ -88,8 +89,10 @@ func c05(r *engine.Report, p *engine.Program) {
 			fx, bx := engine.FieldOfLoad(bo.X)
 			switch {
 			case fy == stdoutSize && statusFrom(by):
+				sizeBases = append(sizeBases, by)
 				return bo.Op == token.GEQ || bo.Op == token.LSS, bo.Op == token.GEQ
 			case fx == stdoutSize && statusFrom(bx):
+				sizeBases = append(sizeBases, bx)
 				return bo.Op == token.LEQ || bo.Op == token.GTR, bo.Op == token.LEQ
 			}
 			return false, false
@@ -122,7 +125,53 @@ func c05(r *engine.Report, p *engine.Program) {
 		}
 		r.Check("R1-completion", "GetResults: normal end requires complete state AND position >= recorded StdoutSize", G.Pos(), ok,
 			"from the err == io.EOF edge, a return before the next polling round is unreachable once either the IsComplete(status.State) or the filePos >= status.StdoutSize edges are removed", why)
-		_ = statusCalls
+		// one snapshot: the state tested and the size compared are read from the same Status() result
+		{
+			snap := func(v ssa.Value) ssa.Value {
+				v = engine.Unwrap(v)
+				for i := 0; i < 6; i++ {
+					switch x := v.(type) {
+					case *ssa.UnOp:
+						v = engine.Unwrap(x.X)
+						continue
+					case *ssa.FieldAddr:
+						v = engine.Unwrap(x.X)
+						continue
+					case *ssa.Alloc:
+						// a local holding the snapshot: its single stored value
+						var sv ssa.Value
+						n := 0
+						if refs := x.Referrers(); refs != nil {
+							for _, rr := range *refs {
+								if st, ok := rr.(*ssa.Store); ok && st.Addr == ssa.Value(x) {
+									sv = st.Val
+									n++
+								}
+							}
+						}
+						if n == 1 {
+							v = engine.Unwrap(sv)
+							continue
+						}
+					}
+					break
+				}
+				return v
+			}
+			same := len(statusCalls) > 0 && len(sizeBases) > 0
+			stateSnaps := map[ssa.Value]bool{}
+			for _, b := range statusCalls {
+				stateSnaps[snap(b)] = true
+			}
+			for _, b := range sizeBases {
+				if !stateSnaps[snap(b)] {
+					same = false
+				}
+			}
+			r.Check("R1-completion", "GetResults: state and recorded size are read from one status snapshot", G.Pos(), same,
+				"IsComplete(x.State) and the comparison with x.StdoutSize use the same Status() result",
+				"the completion state and the recorded size come from different Status() calls: the producer can write its last chunk and finish between them, so an old size is paired with the new state and the stream ends without the final chunk")
+		}
 	}
 	// R2 value identity of position and data
 	{
@@ -250,22 +299,7 @@ func c05(r *engine.Report, p *engine.Program) {
 	}
 	// R3 remote mirror
 	{
-		var startposVal ssa.Value
-		for _, b := range mrs.Blocks {
-			for _, in := range b.Instrs {
-				if mu, ok := in.(*ssa.MapUpdate); ok {
-					if k, isS := engine.ConstString(mu.Key); isS && k == "startpos" {
-						startposVal = engine.Unwrap(mu.Value)
-					}
-				}
-			}
-		}
-		okStart := false
-		if c, ok := startposVal.(*ssa.Call); ok && engine.IsCallTo(c.Common(), "workceptor.stdoutSize") {
-			if a, ok := c.Common().Args[0].(*ssa.Call); ok && a.Common().IsInvoke() && a.Common().Method.Name() == "UnitDir" {
-				okStart = true
-			}
-		}
+		okStart := mirrorOffsetOK(mrs)
 		r.Check("R3-mirror", "monitorRemoteStdout: requested offset = current size of the local copy", mrs.Pos(), okStart,
 			"startpos is stdoutSize(rw.UnitDir()), evaluated in the same loop round", "the mirror asks for an offset other than the current local size: gaps or repeats in the local copy")
 		// opens: O_APPEND, no O_TRUNC
@@ -486,4 +520,25 @@ func sameCellOrValue(a, b ssa.Value) bool {
 	}
 	ca, cb := loadOfCell(a), loadOfCell(b)
 	return ca != nil && ca == cb
+}
+
+// mirrorOffsetOK: the "startpos" the remote mirror asks for is stdoutSize(rw.UnitDir()) — the size
+// of the local copy on disk at that moment (so it is right after a restart of the daemon too).
+func mirrorOffsetOK(mrs *ssa.Function) bool {
+	var startposVal ssa.Value
+	for _, b := range mrs.Blocks {
+		for _, in := range b.Instrs {
+			if mu, ok := in.(*ssa.MapUpdate); ok {
+				if k, isS := engine.ConstString(mu.Key); isS && k == "startpos" {
+					startposVal = engine.Unwrap(mu.Value)
+				}
+			}
+		}
+	}
+	if c, ok := startposVal.(*ssa.Call); ok && engine.IsCallTo(c.Common(), "workceptor.stdoutSize") {
+		if a, ok := c.Common().Args[0].(*ssa.Call); ok && a.Common().IsInvoke() && a.Common().Method.Name() == "UnitDir" {
+			return true
+		}
+	}
+	return false
 }
